@@ -17,7 +17,8 @@
 // x field x constant of the domain (+ null), each under 7 orderings; every field as sort key; AND pairs and OR pairs
 // of two comparisons; (a AND b) OR c; paging (page size 1 and 2, all pages, by offset and on one open reader),
 // Limit, CountDocuments (also with offset); queries that must be refused.
-// Part B — ALL histories up to a depth (quick 3, thorough 4; no pruning) over 12 operations {insert x4, insert-many
+// Part B — ALL histories up to a depth (per configuration and tier, see configs: quick 3/3/2, thorough 4/3/3/3/3; no
+// pruning; after an operation that left the reference unchanged only a light sweep) over 12 operations {insert x4, insert-many
 // x2, replace by query, replace by id (document carrying _id), delete by query, delete oldest (order by _id limit
 // 1), toggle indexes of c_mid, insert-many with one invalid document} for several 4-document configurations. After
 // the last step of every history (every prefix is itself a history, so after every step) the configuration's grammar
